@@ -64,7 +64,7 @@ def _direct(ctx, rep, n):
 
 def _scratch(ctx, rep, n, label='scratch'):
     """From-scratch worlds: random configuration reached by a history, rebuilt fresh, compared with the spec."""
-    for pname in ('basic', 'three-fits-decimal', 'fleet', 'noswitch-projected'):
+    for pname in ('basic', 'three-fits-decimal', 'fleet', 'projheavy'):
         p = dict(F.PARAM_SETS[pname], nsteps=25)
         base = ctx.sub_rnd(label, pname).randrange(10 ** 9)
         for k in range(n):
@@ -90,8 +90,10 @@ def _scratch(ctx, rep, n, label='scratch'):
                 continue
             for key, val in iv.items():
                 if not W.same_value(mv.get(key, 'missing'), val):
-                    rep.disagree('L1:scratch-value', mv.get(key, 'missing'), val,
-                                 dict(F.case_of(seed, pname, h['ops']), key=key, built='from scratch'))
+                    case = dict(F.case_of(seed, pname, h['ops']), key=key, built='from scratch')
+                    rep.disagree('L1:scratch-value', mv.get(key, 'missing'), val, case)
+                    rep.violate('value of %r in a world built from scratch is %r, the dogma rules (Lean spec) give %s'
+                                % (key, val, mv.get(key, 'missing')), dict(case, oracle='lean-spec'))
                     break
             for vid, r in ir.items():
                 if mr.get(vid) != r:
